@@ -269,6 +269,7 @@ func main() {
 			c07Extra(c)
 		}
 		runC07Extra2(c)
+		runC07Extra3(c)
 	})
 }
 
